@@ -83,6 +83,9 @@ def check_built(ctx, case):
     for nb in (math.nextafter(v, math.inf), math.nextafter(v, -math.inf), v * (1 + 1e-11), v * (1 - 1e-11), v * (1 + 3e-13)):
         ctx.ok("determine", value.determine, nb)
     inputs.append(v)
+    # the same value as an exact rational number (what a caller computing with fractions hands over)
+    exact = Fraction(V.value(base, dots, p, q))
+    inputs.append(exact)
     for x in inputs:
         r = ctx.ok("determine", value.determine, x)
         if not failed(r):
